@@ -269,6 +269,7 @@ func (e *Env) eval(x Expr) TV {
 	case *EQuant:
 		en := e
 		var bs []string
+		var guards []string
 		for _, b := range x.Vars {
 			t, err := vc.P.resolveType(b.Type, e.pkgPath)
 			if err != nil {
@@ -279,8 +280,14 @@ func (e *Env) eval(x Expr) TV {
 			n = q(n)
 			bs = append(bs, fmt.Sprintf("(%s %s)", n, vc.pre.sortOf(t)))
 			en = en.bind(b.Name, TV{T: n, Ty: t})
+			// quantifiers over references range over allocated objects only
+			switch types.Unalias(t).Underlying().(type) {
+			case *types.Pointer, *types.Map:
+				guards = append(guards, fmt.Sprintf("(and (<= 0 %s) (< %s %s))", n, n, vc.getH(e.cur, "$next", "Int")))
+			}
 		}
 		var inner []string
+		inner = append(inner, guards...)
 		en2 := *en
 		en2.side = &inner
 		body := en2.eval(x.Body)
@@ -492,7 +499,8 @@ func (e *Env) index(x *EIndex) TV {
 	switch t := types.Unalias(v.Ty).Underlying().(type) {
 	case *types.Slice:
 		n, s := vc.arrHeap(t.Elem())
-		return TV{T: fmt.Sprintf("(select (select %s (s_ref %s)) (+ (s_off %s) %s))", vc.getH(e.cur, n, s), v.T, v.T, i.T), Ty: t.Elem()}
+		e.addSide(fmt.Sprintf("(= (idx %s %s) (+ (s_off %s) %s))", v.T, i.T, v.T, i.T))
+		return TV{T: fmt.Sprintf("(select (select %s (s_ref %s)) (idx %s %s))", vc.getH(e.cur, n, s), v.T, v.T, i.T), Ty: t.Elem()}
 	case *types.Map:
 		if v.IsSet {
 			return TV{T: fmt.Sprintf("(select %s %s)", v.T, i.T), Ty: boolT}
@@ -817,8 +825,8 @@ func (e *Env) sliceEq(a TV, sa *State, b TV, sb *State) string {
 	n, s := vc.arrHeap(st.Elem())
 	vc.nfresh++
 	k := q(fmt.Sprintf("k!%d", vc.nfresh))
-	return fmt.Sprintf("(and (= (s_len %s) (s_len %s)) (forall ((%s Int)) (=> (and (<= 0 %s) (< %s (s_len %s))) (= (select (select %s (s_ref %s)) (+ (s_off %s) %s)) (select (select %s (s_ref %s)) (+ (s_off %s) %s))))))",
-		a.T, b.T, k, k, k, a.T, vc.getH(sa, n, s), a.T, a.T, k, vc.getH(sb, n, s), b.T, b.T, k)
+	return fmt.Sprintf("(and (= (s_len %s) (s_len %s)) (forall ((%s Int)) (=> (and (<= 0 %s) (< %s (s_len %s)) (= (idx %s %s) (+ (s_off %s) %s)) (= (idx %s %s) (+ (s_off %s) %s))) (= (select (select %s (s_ref %s)) (idx %s %s)) (select (select %s (s_ref %s)) (idx %s %s))))))",
+		a.T, b.T, k, k, k, a.T, a.T, k, a.T, k, b.T, k, b.T, k, vc.getH(sa, n, s), a.T, a.T, k, vc.getH(sb, n, s), b.T, b.T, k)
 }
 
 // resolveModifies turns a contract's modifies patterns into heap-variable names.
